@@ -7,12 +7,12 @@ HOOK_COMMITS = ["e830588", "a6f2056", "d667224"]
 CHECKS = {
  "C01": dict(
   technique="runtime monitors under hostile workloads: panic hook with overflow checks and debug assertions, child-process death and per-call watchdog with isolated re-run, differential poison probes against fresh instances; Miri stage in the thorough tier",
-  text="Exploration: ~2.5e6 (quick) / ~1e8 (thorough) hostile inputs: every truncation and (strided in quick) single-bit corruption of every packet of the four bundled captures and of synthesised connections, every (kind,length,position) TCP option encoding, IP header-length grids in three framings, seeded structural mutation of frames, TLS/HTTP streams and database text; all go through the TCP/HTTP/TLS/unified analyzers with and without filters, the three pools, analyze_pcap, the incremental readers/extractors, parsers, hash functions and every FromStr. Any panic (incl. arithmetic overflow), abnormal process death or confirmed non-return is a violation; every 64 hostile frames a probe connection on a reserved 4-tuple must be analysed exactly as by a fresh instance. Held = none observed.",
+  text="Exploration: ~2.5e6 (quick) / ~1e8 (thorough) hostile inputs: every truncation and (strided in quick) single-bit corruption of every packet of the four bundled captures and of synthesised connections, every (kind,length,position) TCP option encoding, IP header-length grids in three framings, seeded structural mutation of frames, TLS/HTTP streams and database text; all go through the TCP/HTTP/TLS/unified analyzers with and without filters, the three pools, analyze_pcap, the incremental readers/extractors, parsers, hash functions and every FromStr. Any panic (incl. arithmetic overflow), abnormal process death or confirmed non-return is a violation; every 64 hostile frames, and right after each crafted half-finished connection (also between the probes' own hosts), a set of probe connections on reserved addresses must be analysed exactly as by a fresh instance. Held = none observed.",
   note="Non-termination is decided as bounded progress (20 s, then 60 s alone); memory safety only as far as the executed paths and Miri's reduced workload reach.",
   design="6 C01"),
  "C13": dict(
   technique="runtime oracle: synthesis of conforming traffic per bundled signature, packet-level analysis, and a p0f-level conformance predicate for earlier entries; dead signatures of the unchanged tree listed item by item as a known finding",
-  text="Exploration: each of the 199 TCP and 99 HTTP bundled signatures is instantiated as packets/messages (TCP: IPv4/IPv6, hop counts 0..30, admissible MSS/scale values, windows realising the window form, option bytes realising the layout, header bits realising exactly the quirks; 300 variants per signature quick / 6000 thorough; HTTP: 16 variants over HTTP version, optional headers in/out, exact vs substring values, exact vs embedded software token) and analysed at packet level; the best match must be the signature's own label or the label of an earlier entry the traffic conforms to. Held = every (signature, variant class) either reaches its label or is one of the 299 listed dead items.",
+  text="Exploration: each of the 199 TCP and 99 HTTP bundled signatures is instantiated as packets/messages (TCP: IPv4/IPv6, hop counts 0..30, admissible MSS/scale values, windows realising the window form, option bytes realising the layout, header bits realising exactly the quirks; 300 variants per signature quick / 6000 thorough; HTTP: 16 variants over HTTP version, optional headers in/out, exact vs substring values, exact vs embedded software token) and analysed at packet level; the best match must be the signature's own label or the label of an earlier entry the traffic conforms to; derived databases (bundled text with the sig lines of 1..3 labels per section commented out) must keep every own-label match of the bundled database. Held = every (signature, variant class) either reaches its label or is one of the 299 listed dead items.",
   note="Conformance predicate and synthesis are the harness' own (c13.rs); a listed item that becomes reachable is noted, not reported.",
   design="6 C13"),
  "C04": dict(
@@ -31,9 +31,9 @@ CHECKS = {
   note="Label Display round-trip and trailing junk after classes=/ua_os= are outside the judged domain.",
   design="6 C06"),
  "C08": dict(
-  technique="runtime history monitor: per-segment return values of the incremental reader and of the packet-level TLS analyzer checked against the exactly-once-on-the-completing-segment rule and the one-segment result",
-  text="Exploration: ~1.6e6 (quick) / ~1.9e8 (thorough) judged histories: every 2-partition of hellos from 60 B to 16 KiB, every 3-partition of small hellos, byte-by-byte and random k-partitions, near-limit records, bytes after the record in the same or later segments, and 17 kinds of non-ClientHello records, through TlsClientHelloReader::add_bytes and HuginnNetTls packets (IPv4/IPv6, fresh analyzer every 256 episodes). Held = every history had exactly one result on the completing segment equal to the single-segment one, and none otherwise.",
-  note="A later segment that starts a valid handshake record (second ClientHello) is outside the judged domain; worker-pool path is covered by C10.",
+  technique="runtime history monitor: per-segment return values of the incremental reader, of the packet-level TLS analyzer and of a TLS worker pool driven in lock-step, checked against the exactly-once-on-the-completing-segment rule and the one-segment result",
+  text="Exploration: ~1.6e6 (quick) / ~1.9e8 (thorough) judged histories: every 2-partition of hellos from 60 B to 16 KiB, every 3-partition of small hellos, byte-by-byte and random k-partitions, near-limit records, bytes after the record in the same or later segments, and 17 kinds of non-ClientHello records, through TlsClientHelloReader::add_bytes and HuginnNetTls packets (IPv4/IPv6, fresh analyzer every 256 episodes), and segment by segment through a TLS worker pool (1/2/4 workers) with idle gaps of several worker time-outs between segments. Held = every history had exactly one result on the completing segment equal to the single-segment one, and none otherwise.",
+  note="A later segment that starts a valid handshake record (second ClientHello) is outside the judged domain; the per-worker stage needs hook H2.",
   design="6 C08"),
  "C16": dict(
   technique="runtime oracle: generator-as-reference (full HPACK encoder + HTTP/2 framer, h2gen.rs) vs the decoded request/response; deviation model for one known finding (a static-table defect of the HPACK dependency)",
@@ -52,7 +52,7 @@ CHECKS = {
   design="6 C02"),
  "C11": dict(
   technique="runtime resource monitor: counting global allocator (thread-local and process-wide counters) read after every packet of long single connections and of over-capacity connection sets",
-  text="Exploration: 9 traffic kinds that never yield a fingerprint (unterminated HTTP heads, endless bodies, TLS application data after either hello, huge declared record, random bytes, 1-byte segments, timestamped ACKs) x 2 segment sizes x HTTP/TLS/TCP/unified analyzers and one-worker pools, 2e4 (quick) / 1e6 (thorough) segments each, plus connection sets 1.2..4x the capacity; retained bytes must stay <= 1 MiB per connection (capacity x 1 MiB overall) and the bytes allocated for one packet <= 4 MiB + 8 x its length at every index. Held = limits never crossed; evidence lists the maximum retained KiB per case.",
+  text="Exploration: 15 traffic kinds (unterminated HTTP heads, endless bodies, TLS application data after either hello, huge declared record, random bytes, 1-byte segments, timestamped ACKs, heads of the opposite role, several TLS records per segment, HTTP/2 DATA without HEADERS, pipelined requests, retransmission storm on seen sequence numbers, failing HPACK block that raised the table size followed by DATA) x 2 segment sizes x HTTP/TLS/TCP/unified analyzers and one-worker pools, 2e4 (quick) / 1e6 (thorough) segments each, plus connection sets 1.2..4x the capacity; retained bytes must stay <= 1 MiB per connection (capacity x 1 MiB overall) and the bytes allocated for one packet <= 4 MiB + 8 x its length at every index. Held = limits never crossed; evidence lists the maximum retained KiB per case.",
   note="Allocation volume is the work proxy; limits are fixed generous constants. Needs hooks H2/H3 for the worker path (allocation counter sampled at the dequeue/processed points).",
   design="6 C11"),
  "C12": dict(
@@ -77,18 +77,18 @@ CHECKS = {
   design="6 C18"),
  "C10": dict(
   technique="runtime differential with event log: worker pools vs sequential analyzers on the same traces, logical drain detection through hook events, seeded schedule perturbation at hook points",
-  text="Exploration: 400 (quick) / 6000 (thorough) seeded traces of 10..200 connections x the TCP, HTTP and TLS pools x 3..6 configurations (workers 1..16, batch 1/2/32, timeout 1/10 ms, perturbation rates) plus lock-step runs with a moving virtual clock and the parallel analyze_pcap entry; result multisets and per-connection/per-sender orders must equal the sequential run. Evidence counts the distinct result-arrival orders observed (schedule diversity). Held = no run differed; undrained or overflowing runs are inconclusive.",
+  text="Exploration: 400 (quick) / 6000 (thorough) seeded traces of 10..200 connections x the TCP, HTTP and TLS pools x 3..6 configurations (workers 1..16, batch 1/2/32, timeout 1/10 ms, perturbation rates) plus lock-step runs with a moving virtual clock, pools built by the analyzers' with_config + init_pool driven in lock-step with queues of 2..6 frames, hub traces in which a few hosts take part in many connections, and the parallel analyze_pcap entry; result multisets and per-connection/per-sender orders must equal the sequential run. Evidence counts the distinct result-arrival orders observed (schedule diversity). Held = no run differed; undrained or overflowing runs are inconclusive.",
   note="Needs hooks H1, H2, H3. Only schedules that real threads plus perturbation produce are explored.",
   design="6 C10"),
  "C09": dict(
   technique="runtime differential + history monitor: deliveries of one connection under varied partition / ISN / arrival order vs the in-order baseline, with a coverage invariant evaluated at every report",
-  text="Exploration: 3.2k (quick) / 100k (thorough) seeded HTTP/1.x and HTTP/2 exchanges, each delivered under every (strided in quick) 2-cut, every initial sequence number within one stream length of 2^32, all permutations of up to 5 client segments and random two-direction partitions/orders (~7.7e5 deliveries quick). Each delivery must report exactly the baseline request and response, once, in the right direction, and never before the delivered segments cover the head contiguously. Held = no delivery differed.",
+  text="Exploration: 3.2k (quick) / 100k (thorough) seeded HTTP/1.x and HTTP/2 exchanges, (CRLF and bare-LF heads, bodies containing blank lines) each delivered under every (strided in quick) 2-cut, every initial sequence number within one stream length of 2^32, all permutations of up to 5 client segments and random two-direction partitions/orders (~7.7e5 deliveries quick). Each delivery must report exactly the baseline request and response, once, in the right direction, and never before the delivered segments cover the head contiguously. Held = no delivery differed.",
   note="Needs hooks H1/H3. No retransmissions/overlaps/FIN/RST; SYN and SYN+ACK first as the property presupposes.",
   design="6 C09"),
  "C07": dict(
   technique="runtime differential monitor: isolated vs interleaved analysis of scripted connections on the real analyzers, virtual clock, canonical per-frame result comparison",
   text="Exploration: 24k (quick) / 800k (thorough) seeded scenarios of 2..8 connections (TCP handshakes with timestamps, multi-segment ClientHellos, HTTP/1.x, HTTP/2 incl. hostile HPACK blocks, garbage, truncated) are each analysed alone and under 3..5 order-preserving interleavings on the TCP, HTTP, TLS and unified analyzers; the per-frame canonical results of every connection must be identical in both runs. Held = no connection's result sequence changed in any explored interleaving.",
-  note="Needs hooks H1 (clock) and H3 (per-packet entry). Reach is the sampled interleavings of the generated connection kinds; capacity is kept above the number of connections.",
+  note="Needs hooks H1 (clock) and H3 (per-packet entry). Reach is the sampled interleavings of the generated connection kinds; the configured capacity is 64 or (half of the scenarios) exactly the number of connections.",
   design="6 C07"),
  "C19": dict(
   technique="runtime oracle: online reference state machine (exact rational arithmetic) over episodes driven with a virtual clock hook",
